@@ -602,7 +602,8 @@ var _ = strings.Join
 func init() {
 	mcx.Register(&mcx.Driver{
 		ID: "C07", Run: run, Replay: replay, Workers: 8,
-		Rule: "(a) every chain shape of a 33-element catalogue (direct, 1-2 intermediates located in layout / passed by caller one per input or as one chain file in either order, also behind a foreign certificate / missing, expired, not yet valid, foreign root, same-subject foreign root, foreign chain with its intermediate in layout or from the caller, non-CA issuer, root absent, two roots, self-signed, no roots) x 9 constraint lists (none, wildcard, exact, wrong, wrong+wildcard, split common-name/DNS, three) observed at Step.CheckCertConstraints and through InTotoVerify on a certificate-signed link; " +
+		Rule: "also: constraint values differing from the certificate's in letter case, by a trailing dot or a leading blank; the caller's two intermediates as separate inputs without final newline; " +
+			"(a) every chain shape of a 33-element catalogue (direct, 1-2 intermediates located in layout / passed by caller one per input or as one chain file in either order, also behind a foreign certificate / missing, expired, not yet valid, foreign root, same-subject foreign root, foreign chain with its intermediate in layout or from the caller, non-CA issuer, root absent, two roots, self-signed, no roots) x 9 constraint lists (none, wildcard, exact, wrong, wrong+wildcard, split common-name/DNS, three) observed at Step.CheckCertConstraints and through InTotoVerify on a certificate-signed link; " +
 			"(a') for every chain shape that must be refused and shares its leaf certificate with an accepted shape: the accepted one first, then the refused one, in one process; (b) each of the five attributes deviating alone from an all-wildcard constraint: certificate values {absent,[a],[a,b],[a,a]} x constraint {*,[],nil,[\"\"],[a],[b],[a,b],[b,a],[a,b,c],[*,a],[a,a]} (thorough: every pair of attributes); (d) seven root constraints x valid/invalid chain with two layout roots. " +
 			"Distinct by construction; non-trivial = the reference decides (duplicated values/constraint entries with equal sets and non-wildcard root constraints in the completeness direction are don't-care). states = scenarios, transitions = constraints evaluated.",
 		Assumptions: []string{
